@@ -315,8 +315,9 @@ SECTIONS = []
 
 
 class Section:
-    def __init__(self, name, ids, static, render, sem=None, kind="value", needs=(), probe_note="", exact=None):
+    def __init__(self, name, ids, static, render, sem=None, kind="value", needs=(), probe_note="", exact=None, decided_by=()):
         self.name = name
+        self.decided_by = tuple(decided_by)   # tripwires: the properties whose correspondence + oracle decide the behaviour on every run
         self.ids = ids
         self.static = static
         self.render = render
@@ -326,7 +327,11 @@ class Section:
         # the recorded reference value is rendered with the reference text, so that a refactoring that changes no
         # meaning leaves Tables.v byte-identical (no rebuild, no proof sees a different syntactic form).
         self.exact = exact or self.sem
-        self.kind = kind          # value | pin | flag (flag: static-only boolean reading of a shape)
+        # value | pin (boolean shape reading, overridden by a probe over a complete universe) |
+        # flag (static-only boolean) | tripwire (static-only shape reading of a renderer whose domain has no finite
+        # complete universe: NO Coq identifier, nothing depends on it; when it trips, the evidence of the
+        # properties in decided_by says so and their correspondence run + oracle decide)
+        self.kind = kind
         self.needs = needs
         self.probe_note = probe_note
         SECTIONS.append(self)
@@ -1128,19 +1133,30 @@ def st_pin_contains(file_fn, header, needles, what):
     return f
 
 
-NO_FINITE = "no finite universe (durations / positions): static only"
-Section("pin_duration_argument", ["pin_duration_argument"],
-        st_pin_contains(lambda s: s(COMMAND_RS), r"impl Argument for Duration\s*\{", ['write!(buf,"{:.3}",self.as_secs_f64()).unwrap();'], "Argument for Duration"),
-        render_bool("pin_duration_argument"), kind="pin", probe_note=NO_FINITE)
-Section("pin_seek_format", ["pin_seek_format"],
-        st_pin_contains(_defs, r"impl Command for Seek\s*\{", [
-            'SeekMode::Absolute(pos)=>format!("{:.3}",pos.as_secs_f64())',
-            'SeekMode::Forward(time)=>format!("+{:.3}",time.as_secs_f64())',
-            'SeekMode::Backward(time)=>format!("-{:.3}",time.as_secs_f64())'], "Command for Seek"),
-        render_bool("pin_seek_format"), kind="pin", probe_note=NO_FINITE)
-Section("pin_songrange_argument", ["pin_songrange_argument"],
-        st_pin_contains(_defs, r"impl Argument for SongRange\s*\{", ['write!(buf,"{}:{}",self.from,to).unwrap();', 'write!(buf,"{}:",self.from).unwrap();'], "Argument for SongRange"),
-        render_bool("pin_songrange_argument"), kind="pin", probe_note=NO_FINITE)
+NO_FINITE = ("no finite complete universe (durations / positions): a tripwire only; the behaviour is decided on every run by "
+             "C15's correspondence (edge sweeps and 1500 / 600 random durations / ranges per quick run) and its oracle")
+
+
+def render_tripwire(name):
+    return lambda v, got: f"(* tripwire {name}: {'the source has the pinned shape' if v['ok'] else 'TRIPPED (the source no longer has the pinned shape)'} *)"
+
+
+def tripwire(name, static, decided_by, note):
+    Section(name, [], static, render_tripwire(name), kind="tripwire", decided_by=decided_by, probe_note=note)
+
+
+tripwire("pin_duration_argument",
+         st_pin_contains(lambda s: s(COMMAND_RS), r"impl Argument for Duration\s*\{", ['write!(buf,"{:.3}",self.as_secs_f64()).unwrap();'], "Argument for Duration"),
+         ("C15",), NO_FINITE)
+tripwire("pin_seek_format",
+         st_pin_contains(_defs, r"impl Command for Seek\s*\{", [
+             'SeekMode::Absolute(pos)=>format!("{:.3}",pos.as_secs_f64())',
+             'SeekMode::Forward(time)=>format!("+{:.3}",time.as_secs_f64())',
+             'SeekMode::Backward(time)=>format!("-{:.3}",time.as_secs_f64())'], "Command for Seek"),
+         ("C15",), NO_FINITE)
+tripwire("pin_songrange_argument",
+         st_pin_contains(_defs, r"impl Argument for SongRange\s*\{", ['write!(buf,"{}:{}",self.from,to).unwrap();', 'write!(buf,"{}:",self.from).unwrap();'], "Argument for SongRange"),
+         ("C15",), NO_FINITE)
 
 
 def st_range_saturating(src, got):
@@ -1186,8 +1202,8 @@ def st_tuple_macro(src, got):
     return {"ok": ("commands.add(self.$further_idx.command());" in mac) and ("self.$further_idx.response(" in mac)}
 
 
-Section("tuple_macro_uses_index_for_both", ["tuple_macro_uses_index_for_both"], st_tuple_macro,
-        render_bool("tuple_macro_uses_index_for_both"), kind="flag")
+tripwire("tuple_macro_uses_index_for_both", st_tuple_macro, ("C13", "C12"),
+         "a reading of the macro body; what it stands for is probed by section tuple_impls and decided by C13's / C12's typed-list correspondence")
 
 
 # ---------------------------------------------------------------- frame.rs shape pin
@@ -1198,8 +1214,8 @@ def st_pin_frame_find(src, got):
     return {"ok": find_b == norm('self.fields().find_map(|(k, v)| if k == key.as_ref() { Some(v) } else { None })')}
 
 
-Section("pin_frame_find", ["pin_frame_find"], st_pin_frame_find, render_bool("pin_frame_find"), kind="pin",
-        probe_note="not probed (no model depends on it; C19's correspondence exercises Frame::find)")
+tripwire("pin_frame_find", st_pin_frame_find, ("C19",),
+         "frames over arbitrary keys: no finite complete universe; decided by C19's correspondence (find/get on every generated frame) and its multimap oracle")
 
 
 SECTION_BY_NAME = {s.name: s for s in SECTIONS}
@@ -1223,6 +1239,7 @@ def gen(repo, probe=None, fallback=None):
     got = {}            # section -> value used for rendering
     how = {}            # section -> provenance
     failed = {}         # section -> reason
+    tripped = {}        # tripwire -> who decides
     texts = {}
     values = {}
     for s in SECTIONS:
@@ -1238,7 +1255,12 @@ def gen(repo, probe=None, fallback=None):
         pr_err = pr.get("error")
         pr_inconsistent = pr.get("kind") == "inconsistent"
         use = None
-        if s.kind == "flag":
+        if s.kind == "tripwire":
+            use = st_val if st_val is not None else {"ok": False}
+            how[s.name] = "static"
+            if not use["ok"]:
+                tripped[s.name] = {"decided_by": list(s.decided_by), "why": st_err or "the body no longer matches the recorded normal form"}
+        elif s.kind == "flag":
             if st_val is not None:
                 use, how[s.name] = st_val, "static"
             else:
@@ -1315,11 +1337,11 @@ def gen(repo, probe=None, fallback=None):
                        f"{_comment_safe(failed.get(s.name, ''))} *)")
         elif h == "disagree":
             out.append(f"(* section {s.name}: DISAGREE (static reading emitted). {_comment_safe(failed.get(s.name, ''))} *)")
-        else:
+        elif s.kind != "tripwire":
             out.append(f"(* section {s.name}: {h} *)")
         out.append(texts[s.name])
     text = "\n".join(out) + "\n"
-    info = {"sections": how, "failed": failed, "values": values, "texts": texts}
+    info = {"sections": how, "failed": failed, "tripped": tripped, "values": values, "texts": texts}
     return text, info
 
 
@@ -1403,7 +1425,7 @@ def main():
             # only comments (provenance) changed: the compiled Tables.vo still corresponds; keep make quiet
             os.utime(outp, ns=(st.st_atime_ns, st.st_mtime_ns))
     print(json.dumps({"sha256": hashlib.sha256(text.encode()).hexdigest(), "changed": old != text, "code_changed": code_changed,
-                      "sections": info["sections"], "failed": info["failed"]}))
+                      "sections": info["sections"], "failed": info["failed"], "tripped": info["tripped"]}))
 
 
 if __name__ == "__main__":
